@@ -185,3 +185,27 @@ impl<T: AsyncRead + Unpin> BmpStream<T> {
         ))
     }
 }
+
+//------------ Verification hooks (off by default) ---------------------------
+
+/// Add-only access for the external verification harness (feature
+/// `verif-hooks`): thin wrappers that call the private items of this module
+/// unchanged.
+#[cfg(feature = "verif-hooks")]
+pub mod verif_hooks {
+    use super::{FatalError, TracingMode};
+    use bytes::Bytes;
+    use tokio::io::AsyncRead;
+
+    /// One call of the real `bmp_read` with tracing off.
+    pub async fn bmp_read_once<T: AsyncRead + Unpin>(
+        rx: T,
+    ) -> Result<(T, Bytes, u8), (T, std::io::Error)> {
+        super::bmp_read(rx, TracingMode::Off).await
+    }
+
+    /// The real `FatalError::is_fatal` for an error of the given kind.
+    pub fn is_fatal(kind: std::io::ErrorKind) -> bool {
+        std::io::Error::from(kind).is_fatal()
+    }
+}
